@@ -364,7 +364,7 @@ fn list_histories(rng: &mut Rng, rounds: u64, rep: &mut Report) {
 	}
 }
 
-fn bit_histories<S: BitStore + Encode, O: BitOrder + OrderInfo>(name: &'static str, rng: &mut Rng, rounds: u64, rep: &mut Report)
+fn bit_histories<S: BitStore + Encode, O: BitOrder + OrderInfo>(name: &'static str, rng: &mut Rng, rounds: u64, coarse: bool, rep: &mut Report)
 where
 	BitVec<S, O>: Encode,
 {
@@ -382,7 +382,11 @@ where
 	};
 	// every head offset inside the store word x every length 0..130
 	for off in 0..w {
-		for len in (0..=130usize).step_by(if rounds < 20 { 7 } else { 1 }) {
+		// under an interpreter: every offset, every 9th length (plus the word boundaries)
+		for len in (0..=130usize).filter(|l| !coarse || l % 9 == 0 || *l == w - 1 || *l == w || *l == w + 1) {
+			if coarse && off % 3 != 0 && off != w - 1 {
+				continue;
+			}
 			let mut owner: BitVec<S, O> = BitVec::with_capacity(off + len + 3);
 			for i in 0..off + len + 3 {
 				owner.push((rng.next_u64() >> (i % 64)) & 1 == 1);
@@ -599,7 +603,7 @@ pub fn c06(ctx: &Ctx) {
 		($(($s:ty, $o:ty)),*) => {$(
 			if mine(&mut job) {
 				let mut rng = ctx.rng_for(concat!("bits:", stringify!($s), stringify!($o)));
-				bit_histories::<$s, $o>(concat!("BitVec<", stringify!($s), ",", stringify!($o), ">"), &mut rng, rounds * 4, &mut rep);
+				bit_histories::<$s, $o>(concat!("BitVec<", stringify!($s), ",", stringify!($o), ">"), &mut rng, rounds * 4, ctx.is_slow(), &mut rep);
 			}
 		)*}
 	}
